@@ -9,7 +9,7 @@ from vlib.workers import ALL, WorkerDied, WorkerSet
 
 PROPERTY = "C19"
 LEVEL = "exploration"
-RULE = ("The same generated Stack trees as C18 (depth <= 4, width <= 3, hidden flags also inside contexts, exiting last "
+RULE = ("(Plus real stacks whose exit stack holds 1-3 registrations any of which cannot be described - raising repr of the manager or of a callback argument: the summary and the flat format still have one entry per registration.) The same generated Stack trees as C18 (depth <= 4, width <= 3, hidden flags also inside contexts, exiting last "
         "contexts, inner stacks, child contexts and child stacks), each summarised, under an ambient sys.tracebacklimit that is unset / 0 / 1 / 2, with all 8 combinations of show_contexts x "
         "show_hidden_frames x capture_locals on CPython 3.9-3.12. Oracle: a reference projection written from the "
         "documentation gives the expected (filename, lineno, function-name prefix) entry list - one per visible frame; with "
@@ -170,10 +170,38 @@ def check_real(ws, interps, case, out):
     return viols
 
 
+BAD_KINDS = ["plain", "badrepr", "badarg", "cb"]
+
+
+def check_badchild(ws, interps, kinds, out):
+    """a real Stack with child contexts that could not be described (exit-stack registrations whose repr raises): extract()
+    returns it and format() renders it; its summary has one entry per registration all the same"""
+    viols = []
+    for interp in interps:
+        try:
+            res = ws[interp].request({"op": "ctxtree.badchild", "kinds": kinds, "summary": True})
+        except WorkerDied as ex:
+            viols.append({"desc": "interpreter %s died (exit %r)" % (interp, ex.returncode), "interp": interp})
+            continue
+        out.per_interp[interp] += 1
+        bad = [o for o in res["obs"] if o["kind"].startswith(("summary", "format_flat"))]
+        if bad:
+            viols.append({"desc": "real stack with undescribed child contexts: %s on %s: %r" % (bad[0]["kind"], interp, bad[0]),
+                          "interp": interp})
+    out.note_case({"badchild": kinds}, any(k.startswith("bad") for k in kinds),
+                  classes=["real_stack.exit_stack_with_undescribable_registration"], n_eval=2 * len(interps))
+    return viols
+
+
 def shard(arg):
     out = Outcome()
     interps = arg["interps"]
     with WorkerSet(interps, hooks=False) as ws:
+        for kinds in arg.get("badchild", []):
+            for v in check_badchild(ws, interps, kinds, out):
+                out.violation(v["desc"], {"badchild": kinds}, v["interp"])
+        if out.violations:
+            return out
         fail = hyp_search(real_cases(), lambda c: check_real(ws, interps, c, out), seed=arg["seed"] + 7,
                           max_examples=arg["n"] // 3, shrink=arg["shrink"])
         if fail:
@@ -192,8 +220,10 @@ def shard(arg):
 
 def run(ctx):
     nshards = ctx.pick(8, 16)
-    args = [{"interps": ALL, "seed": ctx.shard_seed(i), "n": ctx.pick(480, 48000) // nshards, "shrink": not ctx.quick}
-            for i in range(nshards)]
+    import itertools
+    bad = [list(k) for n in (1, 2, 3) for k in itertools.product(BAD_KINDS, repeat=n)]
+    args = [{"interps": ALL, "seed": ctx.shard_seed(i), "n": ctx.pick(480, 48000) // nshards, "shrink": not ctx.quick,
+             "badchild": bad[i::nshards]} for i in range(nshards)]
     out = run_shards("checks.c19", "shard", args)
     out.extra["interpreters"] = ALL
     return out
@@ -203,6 +233,10 @@ def replay(ctx, data):
     out = Outcome()
     interps = [data["interp"]] if data.get("interp") in ALL else ALL
     with WorkerSet(interps, hooks=False) as ws:
+        if "badchild" in data["case"]:
+            for v in check_badchild(ws, interps, data["case"]["badchild"], out):
+                out.violation(v["desc"], data["case"], v["interp"])
+            return out
         fn = check_real if "hide_marks" in data["case"] else check_tree
         for v in fn(ws, interps, data["case"], out):
             out.violation(v["desc"], data["case"], v["interp"])
